@@ -38,8 +38,9 @@ type fakeRT struct {
 	log     []string // addresses of user calls in order
 	pings   map[string]int
 	closed  int
-	removed map[string]time.Time // when an address was removed by Update (for C16)
-	jitter  bool                 // pings take 0..300 µs (storm)
+	removed map[string]time.Time     // when an address was removed by Update (for C16)
+	jitter  bool                     // pings take 0..300 µs (storm)
+	hold    map[string]chan struct{} // calls to these addresses wait inside the Transport until released
 	late    []string
 }
 
@@ -55,7 +56,11 @@ func (f *fakeRT) result(addr string) error {
 func (f *fakeRT) note(addr string) {
 	f.mu.Lock()
 	f.log = append(f.log, addr)
+	ch := f.hold[addr]
 	f.mu.Unlock()
+	if ch != nil {
+		<-ch // a slow dial / slow server: the outcome is decided when the call is let go
+	}
 }
 
 func (f *fakeRT) RoundTrip(addr string, call *rpc.Call) *rpc.Call {
@@ -134,7 +139,7 @@ const routerWait = 170 * time.Millisecond
 const routerDialTimeout = 600 * time.Millisecond
 
 func newRouterEnv(sc routerScenario) *routerEnv {
-	rt := &fakeRT{up: map[string]bool{}, pings: map[string]int{}, removed: map[string]time.Time{}}
+	rt := &fakeRT{up: map[string]bool{}, pings: map[string]int{}, removed: map[string]time.Time{}, hold: map[string]chan struct{}{}}
 	e := &routerEnv{rt: rt, calls: map[int]*rtCall{}, current: map[string]bool{}}
 	c := rpc.NewClient(nil)
 	c.Transport = rt
@@ -418,6 +423,26 @@ func runRouterScenario(sc routerScenario) *routerResult {
 				e.start(next, f[2])
 			}
 			time.Sleep(15 * time.Millisecond)
+		case "hold":
+			e.rt.mu.Lock()
+			e.rt.hold[f[1]] = make(chan struct{})
+			e.rt.mu.Unlock()
+		case "release":
+			e.rt.mu.Lock()
+			ch := e.rt.hold[f[1]]
+			delete(e.rt.hold, f[1])
+			e.rt.mu.Unlock()
+			if ch == nil {
+				continue
+			}
+			close(ch)
+			time.Sleep(5 * time.Millisecond)
+		case "hgo":
+			for i := 0; i < atoi(f[1]); i++ {
+				next++
+				e.start(next, "go")
+				time.Sleep(3 * time.Millisecond)
+			}
 		case "settle":
 			e.waitCalls(2 * time.Second)
 		case "expire":
@@ -548,7 +573,7 @@ func checkRouter(sc routerScenario, r *routerResult) []connVerdict {
 		if (f[0] == "route" || f[0] == "gos" || f[0] == "rts" || f[0] == "ctxs") && !parked && director == "-" {
 			for x := range cur {
 				if up[x] && upWaits[x] >= 3 {
-					for _, res := range lastResults(obs, len(newSent)) {
+					for _, res := range lastResults(obs, atoi(f[1])) {
 						if res == "timeout" {
 							add("C18", "used-again-after-recovery", "C18/recovered-target-not-used/"+f[0], fmt.Sprintf("%s has been reachable for %d detection periods, yet a call of the %s batch at action %d timed out waiting for a live target", x, upWaits[x], f[0], i))
 							break
@@ -692,6 +717,8 @@ func routerCorpus() []routerScenario {
 	mk("dups-and-empty", "rr", "health A 1", "health B 1", "update A,A,,B,", "wait", "route 4")
 	mk("dups-hide-a-removal", "rr", "health A 1", "health B 1", "health C 1", "update A,B,C", "wait", "route 3", "update A,B,B", "wait", "route 4", "update A,B,C", "wait", "update A,,B", "wait", "route 4", "update C,C,C", "wait", "route 2")
 	mk("last-to-die-recovers-first", "rr", "health A 1", "health B 1", "update A,B", "wait", "route 2", "health B 0", "route 4", "wait", "wait", "health A 0", "route 2", "wait", "wait", "health A 1", "wait", "wait", "wait", "route 3", "health B 1", "wait", "wait", "route 4")
+	mk("last-to-die-recovers-first-held", "rr", "health A 1", "health B 1", "update A,B", "wait", "hold A", "hold B", "hgo 2", "health B 0", "release B", "wait", "wait", "health A 0", "release A", "wait", "wait",
+		"health A 1", "wait", "wait", "wait", "route 3", "health B 1", "wait", "wait", "route 4")
 	mk("update-storm", "rr", "storm 60")
 	mk("failover-call", "rr", "health A 1", "health B 1", "update A,B", "wait", "route 2", "health B 0", "route 4", "wait", "route 4", "health B 1", "wait", "wait", "route 4")
 	mk("failover-go", "rr", "health A 1", "health B 1", "update A,B", "wait", "gos 2", "health B 0", "gos 4", "wait", "gos 4", "wait", "gos 4")
